@@ -254,7 +254,7 @@ func CountFiles(t *rapid.T, cfg *telemetry.UploadConfig, ends []time.Time, o Fil
 	for i := 0; i < n; i++ {
 		f := &vmodel.CountFile{Build: builds[rapid.IntRange(0, len(builds)-1).Draw(t, "build")], Kind: "ok", Counts: map[string]uint64{}}
 		f.End = ends[rapid.IntRange(0, len(ends)-1).Draw(t, "week")]
-		f.Begin = Midnight(f.End.Add(-time.Second)).AddDate(0, 0, -rapid.IntRange(0, 6).Draw(t, "spanDays"))
+		f.Begin = f.End.AddDate(0, 0, -1-rapid.IntRange(0, 6).Draw(t, "spanDays"))
 		if o.AllowBad {
 			f.Kind = rapid.SampledFrom([]string{"ok", "ok", "ok", "ok", "ok", "empty", "garbage", "truncated", "baddate", "nometa"}).Draw(t, "kind")
 		}
@@ -298,7 +298,7 @@ func CountFiles(t *rapid.T, cfg *telemetry.UploadConfig, ends []time.Time, o Fil
 
 // EncodeCountFile renders a CountFile with the independent writer (or damages it, by Kind).
 func EncodeCountFile(f *vmodel.CountFile) []byte {
-	begin, end := f.Begin.UTC().Format(time.RFC3339), f.End.UTC().Format(time.RFC3339)
+	begin, end := f.Begin.Format(time.RFC3339), f.End.Format(time.RFC3339)
 	meta := vformat.StdMeta(begin, end, f.Program, f.Version, f.GoVersion, f.GOOS, f.GOARCH)
 	switch f.Kind {
 	case "baddate":
